@@ -89,14 +89,14 @@ def run(ctx):
         ctx.extra['exhaustive_histories_2addr_2events'] = len(allb)
         removing = [x for x in allb if any(s.get('op') in ('Swap', 'Del') for s in x['steps'])]
         rnd.shuffle(removing)
-        keep = removing[:40 if q else 700]
+        keep = removing[:30 if q else 700]
         ctx.extra['replayed_exhaustive_histories'] = len(keep)
         ctx.replay(b, keep, opts=dict(opts, ref='swap'), par=6, timeout=14400)
         # --- simulated histories: 3 addresses, blocks of <= 5, reorganisations 1-2 deep
-        sims = ctx.tlc_sim('LocalIdx_MC', 'LocalIdx_Gen.cfg', num=60 if q else 600, depth=26, stage=d, timeout=3600)
+        sims = ctx.tlc_sim('LocalIdx_MC', 'LocalIdx_Gen.cfg', num=45 if q else 600, depth=26, stage=d, timeout=3600)
         ctx.replay(b, sims, opts=dict(opts, ref='swap'), par=6, timeout=14400)
         if para:
-            simp = ctx.tlc_sim('LocalIdx_MC', 'LocalIdx_GenP.cfg', num=30 if q else 300, depth=22, stage=d, timeout=3600, seed=ctx.seed + 5)
+            simp = ctx.tlc_sim('LocalIdx_MC', 'LocalIdx_GenP.cfg', num=20 if q else 300, depth=22, stage=d, timeout=3600, seed=ctx.seed + 5)
             ctx.replay(b, simp, opts=dict(opts, ref='swap', salt=1), par=6, timeout=14400)
         if not q:
             # the fresh-node comparison after every block event (also after plain additions)
